@@ -35,8 +35,10 @@ structure CSess where
   /-- the operation each thread runs (for rendering its result only) -/
   ops : List (Nat × Op) := []
 
-/-- Start a request as a thread.  A notification thread exists only if the quote's watcher is subscribed. -/
+/-- Start a request as a thread under a thread id that is not in use.  A notification thread exists only if the
+    quote's watcher is subscribed. -/
 def spawn (c : CSess) (tid : Nat) (op : Op) : Option CSess :=
+  if c.threads.any (·.1 == tid) then none else
   match op with
   | .notify q =>
     if c.s.watchers.contains q then
@@ -50,21 +52,26 @@ def Prog.next {α : Type} : Prog α → Option String
   | .ret _ => none
   | .eff e _ => some e.gateLabel
 
-/-- One scheduler step of thread `tid`: perform its next effect on the shared world.
-    `fault`: the effect (a storage call) returns the injected error instead of being performed. -/
+/-- The world a step's effect is performed on: with `fault`, the effect (a storage call) returns the injected error
+    instead of being performed. -/
+def stepWorld (c : CSess) (fault : Bool) : World :=
+  if fault then { c.s.w with faultAt := some c.s.w.nDb } else c.s.w
+
+/-- A finishing keyset rotation publishes the keyset cache it built. -/
+def finishMem (p : Prog (Res × Option Mem)) (w : World) : Prog (Res × Option Mem) × World :=
+  match p with
+  | .ret (res, some m) => (.ret (res, none), { w with mem := m })
+  | p => (p, w)
+
+/-- One scheduler step of thread `tid`: perform its next effect on the shared world. -/
 def stepThread (c : CSess) (tid : Nat) (fault : Bool) : CSess × Option String :=
   match c.threads.find? (·.1 == tid) with
   | none => (c, none)
   | some (_, .ret _) => (c, none)
   | some (_, .eff e k) =>
-    let w0 := if fault then { c.s.w with faultAt := some c.s.w.nDb } else c.s.w
-    let (w1, r) := exec w0 e
-    let w2 := { w1 with faultAt := none }
-    -- a finishing keyset rotation publishes the keyset cache it built
-    let (k', w3) : Prog (Res × Option Mem) × World := match k r with
-      | .ret (res, some m) => (.ret (res, none), { w2 with mem := m })
-      | p => (p, w2)
-    ({ c with s := { c.s with w := w3 }, threads := c.threads.map (fun t => if t.1 == tid then (tid, k') else t) },
+    let x := exec (stepWorld c fault) e
+    let y := finishMem (k x.2) { x.1 with faultAt := none }
+    ({ c with s := { c.s with w := y.2 }, threads := c.threads.map (fun t => if t.1 == tid then (tid, y.1) else t) },
      some e.gateLabel)
 
 /-- Result of a finished thread. -/
